@@ -519,3 +519,91 @@ REGISTER_SCENARIO(c09_est, "C09", "estimates", 35, 35, est_gen, est_exec, true);
 REGISTER_SCENARIO(c09_idx, "C09", "index_limits", 15, 15, idx_gen, idx_exec, false);
 
 } // namespace
+
+// ------------------------------------------------------------------------
+// Threaded decoder with realistic multi-Block files: the threading limit is
+// between what one thread needs and what all threads would like to have.
+// Output buffers of the Blocks in flight are the dominant cost here.
+namespace {
+
+static void mtl_gen(Rng &rng, Plan &plan, bool thorough)
+{
+	gen_sched_params(rng, plan, thorough);
+	gen_chain_params(rng, plan, false, true);
+	plan.setp("ch_preset", 0);
+	static const int64_t dicts[] = { 4096, 65536, 1 << 18 };
+	plan.setp("ch_dict", dicts[rng.below(3)]);
+	gen_artefact_params(rng, plan, thorough, thorough ? 1500000 : 500000);
+	plan.setp("art_streams", 1);
+	plan.setp("art0_kind", 0);
+	plan.setp("art0_class", rng.chance(500) ? IN_TEXT : IN_RUNS);   // compressible: big output buffers, little input
+	plan.setp("art0_len", 100000 + (int64_t)rng.below(thorough ? 1400000 : 400000));
+	static const int64_t bs[] = { 20000, 50000, 100000, 200000 };
+	plan.setp("art0_block", bs[rng.below(4)]);
+	plan.setp("art0_empty_blocks", 0);
+	plan.setp("threads", rng.range(2, 8));
+	plan.setp("timeout", rng.chance(500) ? 0 : rng.range(1, 40));
+	plan.setp("limit_permille", (int64_t)rng.below(1000));   // where between "one thread" and "all threads" the limit sits
+	plan.setp("in_each", (int64_t)(1 + rng.size_skewed(60000)));
+	plan.setp("out_each", (int64_t)(rng.chance(500) ? 1 + rng.below(9000) : 1 + rng.size_skewed(100000)));
+}
+
+static void mtl_exec(const Plan &plan, Verdict &v)
+{
+	Bytes file, plain;
+	XzInfo info;
+	std::string err;
+	if (!build_artefact(plan, file, plain, info, err)) { v.fail("harness", "harness/artefact", err); return; }
+	v.count("runs.total");
+	Chain ch; chain_from_plan(plan, ch);
+	uint64_t need_st = lzma_raw_decoder_memusage(ch.f);
+	uint32_t threads = (uint32_t)plan.p("threads", 4);
+	size_t max_block = 0;
+	for (size_t b : info.block_plain_sizes) max_block = std::max(max_block, b);
+	// what the threaded mode wants per Block: filters + input + output buffer
+	uint64_t per_block = need_st + 2 * (uint64_t)max_block + 65536;
+	uint64_t limit = need_st + per_block * threads * (uint64_t)plan.p("limit_permille") / 1000;
+	SimAlloc al;
+	Session ss(&al.a);
+	ss.set_input(&file);
+	ss.keep_output = true;
+	lzma_mt mt; memset(&mt, 0, sizeof mt);
+	mt.threads = threads; mt.timeout = (uint32_t)plan.p("timeout", 0); mt.flags = 0;
+	mt.memlimit_threading = limit; mt.memlimit_stop = UINT64_MAX;
+	lzma_ret r = lzma_stream_decoder_mt(&ss.s, &mt);
+	if (r != LZMA_OK) { v.fail("init", "C09/init", ret_name(r)); ss.end(); return; }
+	size_t in_each = (size_t)plan.p("in_each", 4096), out_each = (size_t)plan.p("out_each", 4096);
+	if (file.size() / in_each > 3000) in_each = file.size() / 3000 + 1;
+	if (plain.size() / out_each > 4000) out_each = plain.size() / 4000 + 1;
+	uint64_t guard = 0;
+	bool finishing = false;
+	uint64_t A = allowance(threads);
+	uint64_t worst = 0;
+	for (;;) {
+		size_t in_n = in_each;
+		lzma_action act = LZMA_RUN;
+		if (finishing || ss.in_left() <= in_n) { act = LZMA_FINISH; in_n = ss.in_left(); finishing = true; }
+		r = ss.step(in_n, out_each, act);
+		if (al.cur > worst) worst = al.cur;
+		if (r != LZMA_OK) break;
+		if (ss.in_left() == 0) sim_fair_phase();
+		if (++guard > 1000000) { v.fail("liveness-calls", "C09/liveness-calls", "no termination"); break; }
+	}
+	uint64_t peak = al.peak;
+	bool multi = sim_max_threads_seen() > 2;
+	Bytes out; out.swap(ss.out);
+	ss.end();
+	if (!v.ok) { al.purge(); return; }
+	std::string ctx = fmt(" [threads %u, threading limit %llu (one thread needs %llu), %zu Blocks of <= %zu bytes, peak %llu, workers alive at once %d]", threads, (unsigned long long)limit, (unsigned long long)need_st,
+		info.n_blocks, max_block, (unsigned long long)peak, sim_max_threads_seen() - 1);
+	if (r != LZMA_STREAM_END || out != plain) { v.fail("result", "C09/result", fmt("threaded decode under a threading limit gave %s, %zu bytes", ret_name(r), out.size()) + ctx); return; }
+	if (al.cur) { v.fail("leak", "C09/leak", "leak" + ctx); al.purge(); return; }
+	if (peak > limit + A) { v.fail("threading-limit-exceeded", "C09/threading-limit-exceeded", "the threaded decoder allocated more than its threading limit although a single thread fits in it" + ctx); return; }
+	if (multi) v.count("runs.multi_worker");
+	v.counters["max.peak_permille_of_limit"] = std::max<uint64_t>(v.counters["max.peak_permille_of_limit"], peak * 1000 / limit);
+	v.feature(mix64(mix64(threads, limit / 65536), mix64(info.n_blocks, multi)));
+}
+
+REGISTER_SCENARIO(c09_mtl, "C09", "mt_threading_limit", 25, 25, mtl_gen, mtl_exec, true);
+
+} // namespace
